@@ -226,11 +226,11 @@ fn static_names() -> Vec<&'static str> {
     v
 }
 
-fn encode_field_lists(thorough: bool) -> Vec<Vec<Field>> {
+/// All single fields of the encode alphabet (pairs and triples are formed lazily from strided subsets).
+fn encode_singles() -> Vec<Field> {
     let long_name: Vec<u8> = std::iter::repeat(b"a-very-long-header-name-".iter().copied()).flatten().take(130).collect();
     let mut names: Vec<Vec<u8>> = static_names().iter().map(|s| s.as_bytes().to_vec()).collect();
     names.extend([b"x".to_vec(), b"".to_vec(), long_name, b"X-Upper".to_vec(), b":unknown".to_vec()]);
-    let mut out: Vec<Vec<Field>> = vec![vec![]];
     let mut singles: Vec<Field> = Vec::new();
     for n in &names {
         let mut values: Vec<Vec<u8>> = rq::STATIC_TABLE.iter().filter(|e| e.0.as_bytes() == &n[..]).map(|e| e.1.as_bytes().to_vec()).collect();
@@ -306,27 +306,7 @@ fn encode_field_lists(thorough: bool) -> Vec<Vec<Field>> {
     for b in 0..=255u8 {
         singles.push((vec![b'n', b], b"v".to_vec()));
     }
-    for f in &singles {
-        out.push(vec![f.clone()]);
-    }
-    // pairs (order and duplicates matter) over a reduced set; triples in thorough
-    let red: Vec<Field> = singles.iter().step_by(if thorough { 7 } else { 23 }).cloned().collect();
-    for a in &red {
-        for b in &red {
-            out.push(vec![a.clone(), b.clone()]);
-        }
-    }
-    if thorough {
-        let red3: Vec<Field> = singles.iter().step_by(61).cloned().collect();
-        for a in &red3 {
-            for b in &red3 {
-                for c in &red3 {
-                    out.push(vec![a.clone(), b.clone(), c.clone()]);
-                }
-            }
-        }
-    }
-    out
+    singles
 }
 
 fn structured_decode_inputs(thorough: bool) -> Vec<Vec<u8>> {
@@ -440,14 +420,28 @@ pub fn run(args: &Args) -> i32 {
     rep.bound_note = "exhaustive over the stated finite sets".into();
 
     enum Job {
-        Enc(Vec<Vec<Field>>),
+        /// single fields singles[a..b]
+        EncSingles(usize, usize),
+        /// all pairs (red[i], red[j]) for i in a..b, every j
+        EncPairs(usize, usize),
+        /// all triples (red3[i], *, *) for i in a..b
+        EncTriples(usize, usize),
         Dec(Vec<Vec<u8>>),
         /// all strings prefix + [a, b, *] / [a, *, *] blocks
         DecBlock { prefix: Vec<u8>, lead: Vec<u8>, free: usize },
     }
     let mut jobs: Vec<Job> = Vec::new();
-    for c in encode_field_lists(thorough).chunks(2048) {
-        jobs.push(Job::Enc(c.to_vec()));
+    let singles = encode_singles();
+    let red: Vec<Field> = singles.iter().step_by(if thorough { 7 } else { 23 }).cloned().collect();
+    let red3: Vec<Field> = if thorough { singles.iter().step_by(61).cloned().collect() } else { Vec::new() };
+    for a in (0..singles.len()).step_by(2048) {
+        jobs.push(Job::EncSingles(a, (a + 2048).min(singles.len())));
+    }
+    for a in (0..red.len()).step_by(8) {
+        jobs.push(Job::EncPairs(a, (a + 8).min(red.len())));
+    }
+    for a in 0..red3.len() {
+        jobs.push(Job::EncTriples(a, a + 1));
     }
     for c in structured_decode_inputs(thorough).chunks(4096) {
         jobs.push(Job::Dec(c.to_vec()));
@@ -474,9 +468,28 @@ pub fn run(args: &Args) -> i32 {
         }
     }
     let accs = explore::par::run(&jobs, Acc::new, |_, job, acc| match job {
-        Job::Enc(ls) => {
-            for l in ls {
-                check_encode(l, acc);
+        Job::EncSingles(a, b) => {
+            if *a == 0 {
+                check_encode(&Vec::new(), acc);
+            }
+            for f in &singles[*a..*b] {
+                check_encode(&vec![f.clone()], acc);
+            }
+        }
+        Job::EncPairs(a, b) => {
+            for x in &red[*a..*b] {
+                for y in &red {
+                    check_encode(&vec![x.clone(), y.clone()], acc);
+                }
+            }
+        }
+        Job::EncTriples(a, b) => {
+            for x in &red3[*a..*b] {
+                for y in &red3 {
+                    for z in &red3 {
+                        check_encode(&vec![x.clone(), y.clone(), z.clone()], acc);
+                    }
+                }
             }
         }
         Job::Dec(ins) => {
